@@ -143,3 +143,22 @@ package lease_set2
 //@   }
 //@ }
 //@ import "time"
+
+// C15 for every LeaseSet2 value (not only parsed ones): the expiration is
+// exactly published + expires seconds, and IsExpired() reports a structure
+// whose expiry lies a day in the past as expired and one a day in the future
+// as not expired (A-CLOCK).
+//@ lemma C15_LS2IsExpired(ls2 *LeaseSet2) {
+//@   assume(ls2 != nil)
+//@   end := time.Unix(int64(ls2.published)+int64(ls2.expires), 0)
+//@   assert(ls2.ExpirationTime().Equal(end))
+//@   t0 := time.Now()
+//@   ex := ls2.IsExpired()
+//@   t1 := time.Now()
+//@   if end.Before(t0.Add(-24 * time.Hour)) {
+//@     assert(ex)
+//@   }
+//@   if end.After(t1.Add(24 * time.Hour)) {
+//@     assert(!ex)
+//@   }
+//@ }
